@@ -123,7 +123,7 @@ class Generator {
   void emit(std::vector<Op>& ops, const Op& o) { ops.push_back(o); shadow_.step_shadow(o); }
 
   int pick_fn() {
-    static const int w[NFN] = {10, 4, 5, 2, 2, 2, 3, 3, 3, 3, 3};
+    static const int w[NFN] = {10, 4, 5, 2, 2, 2, 3, 3, 3, 3, 3, 3};
     return rng_.pick(w, NFN);
   }
 
